@@ -64,6 +64,7 @@ class Mon(Driver):
         install_monitor()
         w = World(job)
         w.unlocked = set()
+        w.lock0 = w.cs.state.lock
         return w
 
     def pre_step(self, w, a):
@@ -77,6 +78,9 @@ class Mon(Driver):
             for (name, site) in sorted(w.unlocked):
                 vs.append(viol("unlocked-mutation", "%s<-%s" % (name, site), {"action": a}))
             w.unlocked.clear()
+        if w.cs.state.lock is not w.lock0:
+            vs.append(viol("state-lock-replaced", a, {"action": a}))
+            w.lock0 = w.cs.state.lock
         return vs
 
     def on_terminal(self, w):
@@ -122,6 +126,7 @@ def run_entry_points(job):
                      ("smart_delete_path", lambda: cs.smart_delete_path("local-oid-x", "/local/d/r2"))]
         calls += [("change_count", lambda: cs.change_count), ("busy", lambda: cs.busy),
                   ("walk", lambda: cs.walk()), ("forget", lambda: cs.forget())]
+        lock0 = cs.state.lock
         for name, fn in calls:
             log = set()
             SINK["log"] = log
@@ -132,6 +137,11 @@ def run_entry_points(job):
                 pass
             finally:
                 SINK["log"] = None
+            if cs.state.lock is not lock0:
+                # there is ONE state lock for the life of the engine: a thread still holding or waiting for the old object
+                # no longer excludes anybody who takes the new one
+                found.setdefault((name, "state.lock-replaced"), True)
+                lock0 = cs.state.lock
             for (mut, site) in sorted(log):
                 found.setdefault((name, "%s<-%s" % (mut, site)), True)
             try:
